@@ -619,6 +619,13 @@ pub fn minimise_cmd(inp: &Path, out: &Path) {
 /// `gasim replay <file>`: execute exactly that trace in this fresh process.
 pub fn replay_cmd(file: &Path) -> i32 {
     let v: Value = serde_json::from_slice(&std::fs::read(file).unwrap_or_else(|e| harness_error(&format!("{file:?}: {e}")))).unwrap_or_else(|e| harness_error(&format!("{file:?}: {e}")));
+    if v["lane"].as_str() == Some("miri") {
+        let code = crate::lanes::replay_miri(file);
+        if code == 1 {
+            println!("VIOLATION property={} replay={}", v["property"].as_str().unwrap_or("?"), file.display());
+        }
+        return code;
+    }
     if v.get("lane").is_some() {
         let code = crate::lanes::replay_lane(&v).unwrap_or_else(|| harness_error("malformed lane replay file"));
         if code == 1 {
@@ -708,6 +715,78 @@ pub fn rule_of(prop: Prop) -> String {
     format!("{common}{m}")
 }
 
+/// Finite sub-spaces of the dense lane (N in 0..=8) whose coverage keys can be enumerated:
+/// how much of them did the seeded search reach? (measured reach of a random search, not enumeration)
+fn dense_space_reach(prop: Prop, cover: &BTreeSet<u64>) -> Option<Value> {
+    use crate::world::cov_hash;
+    let mut total = 0u64;
+    let mut hit = 0u64;
+    let mut missing: Vec<String> = Vec::new();
+    let mut probe = |parts: &[u64], name: String| {
+        total += 1;
+        if cover.contains(&cov_hash(parts)) {
+            hit += 1;
+        } else if missing.len() < 12 {
+            missing.push(name);
+        }
+    };
+    match prop {
+        Prop::C06 | Prop::C05 => {
+            // (operation, N, front, back, argument) over every reachable position
+            let plain = [OpKind::ItNext, OpKind::ItNextBack, OpKind::ItLen, OpKind::ItWrite, OpKind::ItClone, OpKind::ItFold, OpKind::ItRfold, OpKind::ItCount, OpKind::ItLast, OpKind::ItDebug, OpKind::ItCollect, OpKind::DropObj];
+            for n in 0..=8u64 {
+                for front in 0..=n {
+                    for back in front..=n {
+                        let len = back - front;
+                        for k in plain {
+                            if prop == Prop::C05 && !matches!(k, OpKind::ItCount | OpKind::ItLast | OpKind::DropObj | OpKind::ItCollect) {
+                                continue;
+                            }
+                            probe(&[k as u64, n, front, back, 0], format!("{} N={n} front={front} back={back}", k.name()));
+                        }
+                        for k in [OpKind::ItNth, OpKind::ItNthBack] {
+                            for arg in 0..=len + 2 {
+                                probe(&[k as u64, n, front, back, arg], format!("{}({arg}) N={n} front={front} back={back}", k.name()));
+                            }
+                        }
+                    }
+                }
+            }
+        }
+        Prop::C04 | Prop::C08 | Prop::C16 => {
+            // (operation form, N, panic at call k) with the fault fired
+            for n in 1..=8u64 {
+                for k in 0..n {
+                    if prop != Prop::C16 {
+                        for form in 0..3u64 {
+                            probe(&[OpKind::Generate as u64, n, form, 1, k], format!("generate form {form} N={n} panic at call {k}"));
+                        }
+                        for form in 0..6u64 {
+                            if form == 3 { continue; }
+                            probe(&[OpKind::Map as u64, n, form, 1, k], format!("map form {form} N={n} panic at call {k}"));
+                        }
+                        for form in 0..3u64 {
+                            probe(&[OpKind::Fold as u64, n, form, 1, k], format!("fold form {form} N={n} panic at call {k}"));
+                        }
+                        for form in 0..9u64 {
+                            probe(&[OpKind::Zip as u64, n, form, 1, k], format!("zip form {form} N={n} panic at call {k}"));
+                            for side in 1..=2u64 {
+                                probe(&[OpKind::Zip as u64, n, form, 1, k, side], format!("zip form {form} plain side {side} N={n} panic at call {k}"));
+                            }
+                        }
+                    }
+                    probe(&[OpKind::Map as u64, n, 3, 1, k], format!("boxed map N={n} panic at call {k}"));
+                    probe(&[OpKind::Fold as u64, n, 3, 1, k], format!("boxed fold N={n} panic at call {k}"));
+                    probe(&[OpKind::Zip as u64, n, 9, 1, k], format!("boxed zip N={n} panic at call {k}"));
+                    probe(&[OpKind::BoxedGenerate as u64, n, 1, k], format!("boxed generate N={n} panic at call {k}"));
+                }
+            }
+        }
+        _ => return None,
+    }
+    Some(json!({"space": "dense lane N<=8, enumerated from the generated tables", "tuples": total, "reached": hit, "first_unreached": missing}))
+}
+
 pub struct CheckResult {
     pub exit: i32,
 }
@@ -794,7 +873,30 @@ pub fn check(prop: Prop, tier: &str) -> i32 {
         extra.insert("alloc_failure_lane".into(), info);
         lane_violation = v;
     }
+    if tier == "thorough" && matches!(prop, Prop::C03 | Prop::C04 | Prop::C05 | Prop::C06 | Prop::C07 | Prop::C17) && std::env::var_os("GASIM_NO_MIRI").is_none() {
+        let each: u64 = std::env::var("GASIM_MIRI_RUNS").ok().and_then(|s| s.parse().ok()).unwrap_or(24);
+        let (v, info) = crate::lanes::miri_lane(prop, seed, nw, each);
+        extra.insert("miri_lane".into(), info);
+        if lane_violation.is_none() {
+            lane_violation = v;
+        }
+    }
 
+    if let Some(v) = dense_space_reach(prop, &b.total.cover) {
+        println!("dense-lane reach: {}/{} tuples", v["reached"], v["tuples"]);
+        extra.insert("dense_lane_reach".into(), v);
+    }
+    if tier == "thorough" && b.total.violation.is_none() && b.crash.is_none() {
+        // determinism self-check: the same runs on a different number of worker processes
+        let m = n.min(40_000);
+        let d1 = run_batch(prop, seed, m, 16, &known_keys, None);
+        let d2 = run_batch(prop, seed, m, 5, &known_keys, None);
+        let same = d1.total.digest == d2.total.digest && d1.total.cover == d2.total.cover && d1.total.events == d2.total.events;
+        extra.insert("determinism_selfcheck".into(), json!({"runs": m, "workers": [16, 5], "digests": [format!("{:016x}", d1.total.digest), format!("{:016x}", d2.total.digest)], "identical": same}));
+        if !same {
+            harness_error(&format!("non-determinism: the first {m} runs give digest {:016x} on 16 workers and {:016x} on 5", d1.total.digest, d2.total.digest));
+        }
+    }
     for (k, hits) in &b.total.known_hits {
         let what = known.iter().find(|x| &x.key == k).map(|x| x.what.clone()).unwrap_or_default();
         println!("KNOWN-FINDING: property={} {k} ({hits} runs): {what}", prop.name());
@@ -855,4 +957,33 @@ pub fn check(prop: Prop, tier: &str) -> i32 {
         println!("OK property={} held on everything explored", prop.name());
     }
     exit
+}
+
+/// `gasim determinism [runs]`: every property, {1, 4, 16} workers, two executions each, in separate
+/// processes; per-batch digests (a sum over per-run event hashes) must be identical.
+pub fn determinism_cmd(runs: u64) -> i32 {
+    let seed = env_seed();
+    let mut bad = 0;
+    for &prop in ALL_PROPS {
+        let mut digests = Vec::new();
+        for &nw in &[1usize, 4, 16] {
+            for _rep in 0..2 {
+                let b = run_batch(prop, seed, runs, nw, &[], None);
+                digests.push((nw, b.total.digest, b.total.events, b.total.cover.len()));
+            }
+        }
+        let first = (digests[0].1, digests[0].2, digests[0].3);
+        let ok = digests.iter().all(|d| (d.1, d.2, d.3) == first);
+        println!("{} {} runs: digest {:016x} events {} cover {} across {:?} workers x2 -> {}", prop.name(), runs, first.0, first.1, first.2, [1, 4, 16], if ok { "identical" } else { "DIVERGED" });
+        if !ok {
+            bad += 1;
+            println!("  {:?}", digests);
+        }
+    }
+    if bad > 0 {
+        eprintln!("HARNESS-ERROR non-determinism in {bad} properties");
+        2
+    } else {
+        0
+    }
 }
